@@ -90,7 +90,11 @@ def pattern_matched(e, source):
 def member_of(result, name):
     from statham.schema.elements import Object
     if isinstance(result, Object):
-        return result._dict.get(name, KeyError), (getattr(result, name) if name in type(result).properties else KeyError)
+        try:
+            attr = getattr(result, name) if name in type(result).properties else KeyError
+        except AttributeError:
+            attr = AttributeError                    # a declared property that is not readable: compared (unequal) below
+        return result._dict.get(name, KeyError), attr
     if isinstance(result, dict):
         return result.get(name, KeyError), result.get(name, KeyError)
     return KeyError, KeyError
@@ -123,14 +127,46 @@ def run(tier, seed, replay=None):
             docs.append(d)
     cases, metas = [], []
     for doc in docs:
+        payload = {"property": "C05", "doc": doc, "replay": "./check C05 --replay <this file>"}
+        objs = {}
         try:
-            root, classes = dslgen.build(doc)
-        except BaseException:  # noqa
+            root, classes = dslgen.build(doc, objs)
+        except BaseException as exc:  # noqa
+            # a tree that can be declared once its class-level defaults are taken away: the default is what raised, and the
+            # statement says a default is handed back as-is, "never an error", whatever JSON value it is
+            bare = copy.deepcopy(doc)
+            for c in bare["classes"].values():
+                c["kw"].pop("default", None)
+            try:
+                dslgen.build(bare)
+            except BaseException:  # noqa
+                continue
+            stats["undeclarable_defaults"] = stats.get("undeclarable_defaults", 0) + 1
+            res.violation(dict(payload, kind="oracle", what="declaring a model class with its default raised %s: %s (without the class "
+                               "defaults the same tree is declared fine)" % (type(exc).__name__, str(exc)[:120])))
             continue
         elems, _ = walk(root)
         for c in classes.values():
             walk(c, set(id(x) for x in elems), elems, [])
-        payload = {"property": "C05", "doc": doc, "replay": "./check C05 --replay <this file>"}
+        # the live element's default IS the declared one (the laws below read the live attribute)
+        for sid, spec in list(objs.get("__specs__", {}).items()):
+            live = objs[sid]
+            if spec["k"] == "Obj":
+                m = dslgen.merged_class(doc, spec["name"])
+                if "default" in m["props"]:
+                    continue                                   # K14's subject
+                declared = m["kw"].get("default", NP)
+            elif spec["k"] in ("Not", "AnyOf", "OneOf", "AllOf"):
+                declared = spec.get("default", NP)
+            else:
+                declared = spec.get("kw", {}).get("default", NP)
+            d = default_of(live)
+            stats["declared_defaults_compared"] = stats.get("declared_defaults_compared", 0) + 1
+            same = is_np(d) if declared is NP else ((not is_np(d)) and json.dumps(d, sort_keys=True, default=repr) == json.dumps(declared, sort_keys=True, default=repr))
+            if not same:
+                res.violation(dict(payload, kind="oracle", element=repr(live)[:200],
+                                   what="declared with default %r, the element carries %r: its no-value call cannot yield its own default"
+                                        % (None if declared is NP else declared, "NotPassed" if is_np(d) else d)))
         res.count(json.dumps(doc, sort_keys=True, default=repr), nontrivial=any(not is_np(default_of(e)) for e in elems))
         for e in elems:
             stats["elements_no_value"] += 1
@@ -145,7 +181,16 @@ def run(tier, seed, replay=None):
                     fid = "C05-K14"
                 res.violation(dict(payload, kind="oracle", element=repr(e)[:300], finding=fid, what=why))
         # ---- objects: every subset of supplied declared properties -------------------------------------
-        for e in elems:
+        todo = [(e, True) for e in elems]
+        if any(c.get("base") for c in doc["classes"].values()):
+            # classes with a parent: once more on a FRESH build, parents before children (a class first used after its parent)
+            try:
+                _, fresh = dslgen.build(doc)
+                todo = [(c, False) for c in sorted(fresh.values(), key=lambda c: len(c.__mro__))] + todo
+                stats["parents_first_docs"] = stats.get("parents_first_docs", 0) + 1
+            except BaseException:  # noqa
+                pass
+        for e, to_model in todo:
             if not object_like(e):
                 continue
             props = list(e.properties.items())[:6]
@@ -213,6 +258,8 @@ def run(tier, seed, replay=None):
                             res.violation(dict(payload, kind="oracle", element=repr(e)[:200], input=inp, property_name=name, json_name=src, finding=fid,
                                                what="omitted property %r (JSON name %r) declares default %r but the model exposes %r under %r"
                                                     % (name, src, pd, None if in_dict is KeyError else in_dict, name)))
+            if not to_model:
+                continue
             try:
                 obs, _ = sc.observe_elem(e, obs_vals[:8] + [NP])
                 cases.append(sc.cq_ecase(doc, e, obs))
@@ -263,6 +310,22 @@ TEMPLATES = [
                          "props": {"inner": {"e": {"k": "Ref", "name": "In"}, "required": False, "source": None},
                                    "type_": {"e": {"k": "Ref", "name": "In"}, "required": True, "source": "type"}}}},
      "order": ["In", "Out"], "root": {"k": "Ref", "name": "Out"}},
+    {"classes": {"Base": {"k": "Obj", "name": "Base", "base": None, "doc": None, "kw": {},
+                          "props": {"version": {"e": {"k": "Integer", "kw": {"default": 1}}, "required": False, "source": None}}},
+                 "Versioned": {"k": "Obj", "name": "Versioned", "base": "Base", "doc": None, "kw": {},
+                               "props": {"label": {"e": {"k": "String", "kw": {"default": "none"}}, "required": False, "source": None},
+                                         "class_": {"e": {"k": "String", "kw": {"default": "k"}}, "required": False, "source": "class"}}}},
+     "order": ["Base", "Versioned"], "root": {"k": "Array", "items": [{"k": "Ref", "name": "Base"}, {"k": "Ref", "name": "Versioned"}], "kw": {}}},
+    {"classes": {"L": {"k": "Obj", "name": "L", "base": None, "doc": None, "kw": {"default": []}, "props": {}},
+                 "S": {"k": "Obj", "name": "S", "base": None, "doc": None, "kw": {"default": ""},
+                       "props": {"a": {"e": {"k": "Integer", "kw": {}}, "required": False, "source": None}}},
+                 "N": {"k": "Obj", "name": "N", "base": None, "doc": None, "kw": {"default": None}, "props": {}},
+                 "I": {"k": "Obj", "name": "I", "base": None, "doc": None, "kw": {"default": 5}, "props": {}},
+                 "P": {"k": "Obj", "name": "P", "base": None, "doc": None, "kw": {"default": [["a", 1]]},
+                       "props": {"a": {"e": {"k": "Integer", "kw": {}}, "required": False, "source": None}}},
+                 "Kid": {"k": "Obj", "name": "Kid", "base": "I", "doc": None, "kw": {}, "props": {}}},
+     "order": ["L", "S", "N", "I", "P", "Kid"],
+     "root": {"k": "Array", "items": [{"k": "Ref", "name": n} for n in ["L", "S", "N", "I", "P", "Kid"]], "kw": {}}},
     {"classes": {}, "order": [], "root": {"k": "Element", "kw": {"patternProperties": {"^a": {"k": "Integer", "kw": {}}},
                                                                    "properties": {"a": {"e": {"k": "Integer", "kw": {"default": 5}}, "required": False, "source": None},
                                                                                   "b": {"e": {"k": "Integer", "kw": {"default": 6}}, "required": False, "source": None}}}}},
